@@ -357,7 +357,7 @@ var srtColors = []string{"#ff0000", "#00FF00", "red", "yellow", "#1a2b3c", "rgb(
 
 var srtTextOpts = textOpts{
 	feff:     true,
-	extra:    []string{"\ufeffa", "\ufeff", "&amp;", "&lt;", "&nbsp;", "&gt;", "<b>", "</i>", "<font color=\"red\">", "{\\an8}", "00:00:01,000", "->", "--", "1", "23", "NOTE", "WEBVTT", "&#65;", "&", "<", "a<b", "x>y", "<3"},
+	extra:    []string{"\ufeffa", "\ufeff", "&amp;", "&lt;", "&nbsp;", "&gt;", "<b>", "</i>", "<font color=\"red\">", "{\\an8}", "00:00:01,000", "->", "--", "1", "23", "NOTE", "WEBVTT", "&#65;", "&", "<", "a<b", "x>y", "<3", "\u2014>", "Paris \u2013> Rome", "=>", "\u2192"},
 	forbid:   []string{"-->"},
 	controls: true,
 	nbsp:     true,
